@@ -199,8 +199,8 @@ theorem mech_explain_eq_partial (o : ScoreOps S) (r : Req S) (hfast : isFast r.p
             ((fetch (klt o r.plan) true r'.explain (topKOf r') r'.nseg
               (afterCursor (klt o r.plan) r'.cursor matched)).map stripHit)
           else ([], none, none)).2.2,
-        aggTerms := aggTerms (afterCursor (klt o r.plan) r'.cursor matched),
-        aggCount := aggCount r'.aggField (afterCursor (klt o r.plan) r'.cursor matched),
+        aggTerms := aggTerms matched,
+        aggCount := aggCount r'.aggField matched,
         profile := false } := by
     intro r' hp
     rw [strip_eq]
@@ -269,8 +269,8 @@ theorem mech_explain_eq_plain_partial (o : ScoreOps S) (r : Req S) (hnr : r.resc
           next := (if r'.returnHits then post o (flagsOff r') (rescore o)
               ((isort (klt o r.plan) (afterCursor (klt o r.plan) r'.cursor matched)).map stripHit)
             else ([], none, none)).2.2,
-          aggTerms := aggTerms (afterCursor (klt o r.plan) r'.cursor matched),
-          aggCount := aggCount r'.aggField (afterCursor (klt o r.plan) r'.cursor matched),
+          aggTerms := aggTerms matched,
+          aggCount := aggCount r'.aggField matched,
           profile := false } := by
       intro r' hp hnr' hnc' hlim'
       rw [strip_eq]
